@@ -13,7 +13,7 @@ RULE = ("(a) bounded-exhaustive argument lists: the pair NAME <n> inserted at ev
         "Each case runs the real pipeline; oracle = reference model of the statement.  non-trivial = every case "
         "(each expects >=1 test entry); distinct by expected (kind, signature) list")
 
-NAMES = ["tname", '"quoted name"', "${tref}", "fail", "_trail_"]     # a fragment of a keyword; underscores at both ends
+NAMES = ["tname", '"quoted name"', "${tref}", "fail", "_trail_", '"plainq"']     # ...; quotes that are not needed are still written     # a fragment of a keyword; underscores at both ends
 
 
 def pool(name):
@@ -30,17 +30,19 @@ def arg_lists(k):
                     yield list(seq[:pos]) + ["NAME", name] + list(seq[pos:])
 
 
-def case_events(cmd, doc, args):
+def case_events(cmd, doc, args, params=None, impl="function"):
+    """params: formal parameters of the implementing definition behind its name (they are the definition's business)"""
+    extra = {"params": list(params), "impl": impl} if params is not None else {}
     if cmd == "add_test":
         return [{"k": "add_test", "doc": doc, "args": args}]
     if cmd == "ct_add_test":
-        return [{"k": "ct_add_test", "doc": doc, "args": args}]
-    return [{"k": "ct_add_test", "doc": 0}, {"k": "ct_add_section", "doc": doc, "args": args}]
+        return [dict({"k": "ct_add_test", "doc": doc, "args": args}, **extra)]
+    return [{"k": "ct_add_test", "doc": 0}, dict({"k": "ct_add_section", "doc": doc, "args": args}, **extra)]
 
 
 def check_args(job, case):
-    cmd, doc, args = job
-    msgs, dg, nt = modsearch.check_module(case_events(cmd, doc, args), None, case)
+    cmd, doc, args = job[:3]
+    msgs, dg, nt = modsearch.check_module(case_events(*job), None, case)
     return {"viol": msgs, "obs": dg, "nt": dg, "cls": msgs[0].split(":")[0] if msgs else None}
 
 
@@ -98,6 +100,13 @@ def run(ctx):
     case = common.rot(["lower", "upper", "mixed"], ctx.seed + 2)[0]
     jobs = [(cmd, doc, a) for cmd in ("add_test", "ct_add_test", "ct_add_section") for doc in (1, 0)
             for a in arg_lists(k)]
+    # implementing definitions that declare parameters of their own
+    for cmd in ("ct_add_test", "ct_add_section"):
+        for doc in (1, 0):
+            for args in (["NAME", "tname"], ["NAME", "tname", "EXPECTFAIL"], ["EXPECTFAIL", "NAME", '"plainq"']):
+                for params in (["fixture"], ["fixture", "timeout"], ["fixture", "EXPECTFAIL"], ["a", "b", "c"], ["NAME", "other"]):
+                    for impl in ("function", "macro"):
+                        jobs.append((cmd, doc, args, params, impl))
     ctx.cov["bounds"] = {"max_other_arguments": k, "name_forms": NAMES, "pool": pool("<name>"),
                          "nesting": maxnest, "max_history": depth, "command_case": case}
     ctx.sweep(functools.partial(check_args, case=case), jobs, space="argument lists")
